@@ -1,4 +1,12 @@
 import XmpProofs.Container
+import XmpProofs.Lzw
+import XmpProofs.ArcFrame
+import XmpProofs.PowerPacker
+import XmpProofs.ZipFrame
+import XmpProofs.LhaFrame
+import XmpProofs.ArcfsFrame
+import XmpProofs.LzxFrame
+import XmpProofs.MmcmpFrame
 /-!
 # C08 — Built-in unpacking is transparent and byte-exact
 
@@ -14,10 +22,12 @@ Full-strength statement (kept as the goal):
 
 What is proved below: the MD5 layer completely; the gzip framing for every legal header option
 combination; member selection for every placement of excluded/directory/unsupported companions;
-RLE90 for every token stream; dispatch and the whole pipeline for gzip, and for any archive whose
-framing model returns the payload (`C08_pipeline_partial`).  Missing (named in `_partial`): byte-level
-framing proofs for zip/LHA/ArcFS/LZX/PP/MMCMP/xz/bzip2 containers (their walks are modelled and tied by
-correspondence only, the stream compressors are opaque `Env.other`).
+RLE90 for every token stream and for the concrete encoder; the compress(1) LZW codec completely (decoder model of
+uncompress.c + encoder + round trip); ARC/Spark byte-level framing (header walk, member selection, stored + RLE90,
+CRC-16 gate); dispatch and the whole pipeline for gzip (`C08_pipeline_gzip`, inflate is the only hypothesis),
+compress (`C08_pipeline_compress`, no hypothesis on a decoder) and ARC/Spark stored + RLE90 (`C08_pipeline_arc`).
+Missing: byte-level framing proofs for LHA/ArcFS/LZX/MMCMP/xz/bzip2 containers (member walks are modelled and
+tied by correspondence only, the stream compressors are opaque `Env.other`).
 -/
 namespace Xmp.Container
 open Xmp Xmp.Gen.Depackers Xmp.Md5
@@ -186,10 +196,9 @@ theorem C08_pipeline_of_decrunch {β : Type} (env : Env) (loader : Bytes → β)
   rw [h]
   simp [C08_md5_read_loop _ C08_md5_bufLen_pos]
 
-/-- **pipeline, gzip instance (complete for this container)**: any legal header options, any payload,
-    given a correct inflate.  `_partial`: the same statement for the other containers needs their
-    byte-level framing proofs, which are not done (see the file header). -/
-theorem C08_pipeline_partial {β : Type} (env : Env) (loader : Bytes → β) (o : GzOpts) (cdata p : Bytes)
+/-- **pipeline, gzip (complete for this container's framing)**: any legal header options, any payload,
+    given a correct inflate (the entropy decoder is the only hypothesis). -/
+theorem C08_pipeline_gzip {β : Type} (env : Env) (loader : Bytes → β) (o : GzOpts) (cdata p : Bytes)
     (ho : o.Legal) (hp : p.length < 2^31) (hne : p ≠ [])
     (hlen : minHeaderSize ≤ (gzipWrap env.crc32 o cdata p).length)
     (hdec : env.inflate cdata = some p) :
@@ -203,9 +212,607 @@ theorem C08_pipeline_partial {β : Type} (env : Env) (loader : Bytes → β) (o 
   have : p.length ≠ 0 := fun h => hne (List.eq_nil_of_length_eq_zero h)
   simp [reopenMem, this]
 
+/-- old name of `C08_pipeline_gzip` (kept for references) -/
+theorem C08_pipeline_partial {β : Type} (env : Env) (loader : Bytes → β) (o : GzOpts) (cdata p : Bytes)
+    (ho : o.Legal) (hp : p.length < 2^31) (hne : p ≠ [])
+    (hlen : minHeaderSize ≤ (gzipWrap env.crc32 o cdata p).length)
+    (hdec : env.inflate cdata = some p) :
+    loadByPath env loader (gzipWrap env.crc32 o cdata p) = some (loadFromMemory loader p) ∧
+    (loadByPath env loader (gzipWrap env.crc32 o cdata p)).map (·.2) = some (md5 p) :=
+  C08_pipeline_gzip env loader o cdata p ho hp hne hlen hdec
+
 /-- a file that no signature test accepts is handed to the loader unchanged -/
 theorem C08_not_packed {β : Type} (env : Env) (loader : Bytes → β) (file : Bytes) (h : dispatch file = none) :
     loadByPath env loader file = some (loadFromMemory loader file) :=
   (C08_pipeline_of_decrunch env loader file file (by unfold decrunch; rw [h])).1
+
+
+/-! ## fully modelled codec: compress(1) LZW (`uncompress.c`, `XmpModel.Lzw`) -/
+
+/-- the `input()` macro of uncompress.c extracts bits `o .. o+n-1` (LSB first) of the byte stream for every
+    code width that fits its 24-bit window -/
+theorem C08_lzw_input_macro (l : Bytes) (o n : Nat) (hn : o % 8 + n ≤ 24) :
+    Lzw.readCode l.toArray o n = Lzw.streamNat l / 2 ^ o % 2 ^ n := Lzw.readCode_spec l o n hn
+
+/-- the C alignment expression rounds the bit position up to a multiple of `n_bits * 8` -/
+theorem C08_lzw_align (rel m : Nat) (hm : 0 < m) : Lzw.alignUp rel m = (rel + m - 1) / m * m :=
+  Lzw.alignUp_eq rel m hm
+
+/-- **decode ∘ encode = id** for the LZW of compress(1): every payload, `maxbits` 10..16, block mode on/off,
+    every CLEAR policy, every bound on the phrase length (from literal-only to greedy).  The decoder is the
+    model of `decrunch_compress` (code-width switching with the group alignment quirk, CLEAR, KwKwK, the
+    junk entry after CLEAR); the encoder mirrors the decoder's width state. (`maxbits = 9`: the decoder lineage
+    switches to 10 bits when the 9-bit table is full, which compress(1) does not — outside this theorem.) -/
+theorem C08_lzw_roundtrip (maxbits : Nat) (h10 : 10 ≤ maxbits) (h16 : maxbits ≤ 16) (bm : Bool) (clr : Nat → Bool)
+    (maxLen : Nat) (p : Bytes) : Lzw.unlzw (Lzw.lzwEncode maxbits bm clr maxLen p) = some p :=
+  Lzw.unlzw_lzwEncode maxbits h10 h16 bm clr maxLen p
+
+example : Lzw.unlzw (Lzw.lzwEncode 12 true (fun i => i % 5 == 0) 3 [65, 65, 65, 65, 66, 65, 65, 65, 65, 66, 65]) =
+    some [65, 65, 65, 65, 66, 65, 65, 65, 65, 66, 65] := C08_lzw_roundtrip 12 (by decide) (by decide) _ _ _ _
+
+theorem compress_mem : ("compress", "uncompress.c", Magic.and (.byteEq 0 31) (.byteEq 1 157)) ∈ depackerList := by
+  simp [depackerList]
+
+theorem lha_test_byte2 (b : Bytes) (h : bAt b 2 ≠ 45) :
+    ∀ x ∈ depackerList, x.1 = "lha" → evalMagic x.2.2 b = false := by
+  intro x hx hl
+  simp only [depackerList, List.mem_cons, List.not_mem_nil, or_false] at hx
+  rcases hx with h' | h' | h' | h' | h' | h' | h' | h' | h' | h' | h' | h' | h' <;> subst h' <;>
+    first
+    | (exfalso; revert hl; decide)
+    | (simp only [evalMagic, Bool.and_eq_false_iff, beq_eq_false_iff_ne, ne_eq]; left; left; left; left; exact h)
+
+/-- **pipeline, compress(1) (complete: framing and codec are both proved)** -/
+theorem C08_pipeline_compress {β : Type} (env : Env) (loader : Bytes → β) (maxbits : Nat) (h10 : 10 ≤ maxbits)
+    (h16 : maxbits ≤ 16) (bm : Bool) (clr : Nat → Bool) (maxLen : Nat) (p : Bytes) (hne : p ≠ [])
+    (hlen : minHeaderSize ≤ (Lzw.lzwEncode maxbits bm clr maxLen p).length) :
+    loadByPath env loader (Lzw.lzwEncode maxbits bm clr maxLen p) = some (loadFromMemory loader p) ∧
+    (loadByPath env loader (Lzw.lzwEncode maxbits bm clr maxLen p)).map (·.2) = some (md5 p) := by
+  apply C08_pipeline_of_decrunch
+  have hs : minHeaderSize ≤ (sniff (Lzw.lzwEncode maxbits bm clr maxLen p)).length := by
+    have hm : minHeaderSize ≤ sniffSize := by decide
+    unfold sniff; simp only [List.length_take]; omega
+  have hb : ∀ i, i < 3 → bAt (sniff (Lzw.lzwEncode maxbits bm clr maxLen p)) i =
+      bAt (Lzw.lzwEncode maxbits bm clr maxLen p) i := fun i hi => bAt_sniff _ i (by simp [sniffSize]; omega)
+  have h0 : bAt (sniff (Lzw.lzwEncode maxbits bm clr maxLen p)) 0 = 31 := by rw [hb 0 (by decide)]; rfl
+  have h1 : bAt (sniff (Lzw.lzwEncode maxbits bm clr maxLen p)) 1 = 157 := by rw [hb 1 (by decide)]; rfl
+  have h2 : bAt (sniff (Lzw.lzwEncode maxbits bm clr maxLen p)) 2 ≠ 45 := by
+    rw [hb 2 (by decide)]
+    simp only [Lzw.lzwEncode, bAt, List.cons_append, List.getD_cons_succ, List.getD_cons_zero, UInt8.toNat_ofNat']
+    split <;> omega
+  have hd := C08_dispatch_of_test _ compress_mem (by decide) (Lzw.lzwEncode maxbits bm clr maxLen p) hs
+    (by simp [evalMagic, h0, h1]) (lha_test_byte2 _ h2)
+  unfold decrunch
+  rw [hd]
+  simp only []
+  rw [C08_lzw_roundtrip maxbits h10 h16 bm clr maxLen p]
+  have : p.length ≠ 0 := fun h => hne (List.eq_nil_of_length_eq_zero h)
+  simp [reopenMem, this]
+
+/-! ## fully modelled codec: PowerPacker PP20 (`ppdepack.c`, `XmpModel.PowerPacker`) -/
+
+/-- **`PP_READ_BITS`**: the byte-wise refilled `bit_buffer` delivers the pending bits of the reversed packed area
+    in order, assembled most significant bit first — for every width and every buffer state -/
+theorem C08_pp_read_bits (n : Nat) (br : PowerPacker.BR) (bs rest : List Bool) (hinv : br.buf < 2 ^ br.left)
+    (hp : PowerPacker.pending br = bs ++ rest) (hn : bs.length = n) :
+    ∃ br', PowerPacker.readBits n br = some (PowerPacker.msbVal bs, br') ∧ PowerPacker.pending br' = rest ∧
+      br'.buf < 2 ^ br'.left := PowerPacker.readBits_spec n br bs rest hinv hp hn
+
+/-- **decode ∘ encode = id** for PP20 files made of one literal run (the simplest legal encoder): every
+    non-empty payload below 16 MiB, every legal efficiency table.  Covers `decrunch_pp`'s header checks, the
+    trailer (24-bit length, skip bits), the backwards bit reader, the run-length code and the end-of-output test;
+    see `C08_pp_tokens` for arbitrary token streams with matches. -/
+theorem C08_pp_roundtrip (eff p : Bytes) (he : PowerPacker.LegalEff eff) (hne : p ≠ []) (hlen : p.length < 2 ^ 24) :
+    PowerPacker.decrunchPP (PowerPacker.ppEncode eff p) = some p :=
+  PowerPacker.decrunchPP_ppEncode eff p he hne hlen
+
+example : PowerPacker.decrunchPP (PowerPacker.ppEncode [9, 10, 12, 13] [1, 2, 3, 4, 5]) = some [1, 2, 3, 4, 5] :=
+  C08_pp_roundtrip _ _ ⟨rfl, by decide⟩ (by decide) (by decide)
+
+/-- **decode ∘ render = meaning for every PowerPacker token stream** (literal runs and matches of every length
+    class, 7-bit and table-width offsets, overlapping copies), i.e. for every encoder: the match branch of
+    `ppDecrunch`, the 3-bit length extension and the output-window test are covered. -/
+theorem C08_pp_tokens (eff : Bytes) (items : List PowerPacker.PPItem) (he : PowerPacker.LegalEff eff) (hne : items ≠ [])
+    (hok : PowerPacker.ItemsOk eff (PowerPacker.ppExpand items).length 0 items)
+    (hlen : (PowerPacker.ppExpand items).length < 2 ^ 24) :
+    PowerPacker.decrunchPP (PowerPacker.ppRender eff items) = some (PowerPacker.ppExpand items) :=
+  PowerPacker.decrunchPP_ppRender eff items he hne hok hlen
+
+/-- non-trivial instance: literals, a short match, a long overlapping match with a 7-bit offset, a final literal -/
+def exPPItems : List PowerPacker.PPItem :=
+  [{ lits := [3, 2, 1], mlen := 2, moff := 0 }, { lits := [], mlen := 7, moff := 1, short := true }, { lits := [9] }]
+
+example : PowerPacker.decrunchPP (PowerPacker.ppRender [9, 10, 12, 13] exPPItems) =
+    some [9, 1, 1, 1, 1, 1, 1, 1, 1, 1, 1, 2, 3] := by
+  have h := C08_pp_tokens [9, 10, 12, 13] exPPItems ⟨rfl, by decide⟩ (by decide)
+    (by
+      have e : (PowerPacker.ppExpand exPPItems).length = 13 := by decide
+      rw [e]
+      simp [PowerPacker.ItemsOk, PowerPacker.ItemOk, exPPItems, PowerPacker.offBits])
+    (by decide)
+  have e : PowerPacker.ppExpand exPPItems = [9, 1, 1, 1, 1, 1, 1, 1, 1, 1, 1, 2, 3] := by decide
+  rw [e] at h; exact h
+
+theorem pp_mem : ("pp", "ppdepack.c", Magic.memEq 0 [80, 80, 50, 48]) ∈ depackerList := by simp [depackerList]
+
+/-- dispatch + `hio_reopen_mem` for any PP20 file laid out by `ppPack` whose decoding is known -/
+theorem pipeline_ppPack {β : Type} (env : Env) (loader : Bytes → β) (eff : Bytes) (bits : List Bool) (n : Nat) (p : Bytes)
+    (hne : p ≠ []) (hsz : minHeaderSize ≤ (PowerPacker.ppPack eff bits n).length)
+    (hdec : PowerPacker.decrunchPP (PowerPacker.ppPack eff bits n) = some p) :
+    loadByPath env loader (PowerPacker.ppPack eff bits n) = some (loadFromMemory loader p) ∧
+    (loadByPath env loader (PowerPacker.ppPack eff bits n)).map (·.2) = some (md5 p) := by
+  apply C08_pipeline_of_decrunch
+  have hs : minHeaderSize ≤ (sniff (PowerPacker.ppPack eff bits n)).length := by
+    have hm : minHeaderSize ≤ sniffSize := by decide
+    unfold sniff; simp only [List.length_take]; omega
+  have hb : ∀ i, i < 4 → bAt (sniff (PowerPacker.ppPack eff bits n)) i = bAt (PowerPacker.ppPack eff bits n) i :=
+    fun i hi => bAt_sniff _ i (by simp [sniffSize]; omega)
+  have h0 : bAt (sniff (PowerPacker.ppPack eff bits n)) 0 = 80 := by rw [hb 0 (by decide)]; rfl
+  have h1 : bAt (sniff (PowerPacker.ppPack eff bits n)) 1 = 80 := by rw [hb 1 (by decide)]; rfl
+  have h2 : bAt (sniff (PowerPacker.ppPack eff bits n)) 2 = 50 := by rw [hb 2 (by decide)]; rfl
+  have h3 : bAt (sniff (PowerPacker.ppPack eff bits n)) 3 = 48 := by rw [hb 3 (by decide)]; rfl
+  have hd := C08_dispatch_of_test _ pp_mem (by decide) (PowerPacker.ppPack eff bits n) hs
+    (by simp [evalMagic, memEqAt, h0, h1, h2, h3]) (lha_test_byte2 _ (by rw [h2]; decide))
+  unfold decrunch
+  rw [hd]
+  simp only []
+  rw [hdec]
+  have : p.length ≠ 0 := fun h => hne (List.eq_nil_of_length_eq_zero h)
+  simp [reopenMem, this]
+
+/-- **pipeline, PowerPacker literal-run files (complete: framing and codec proved)** -/
+theorem C08_pipeline_pp {β : Type} (env : Env) (loader : Bytes → β) (eff p : Bytes) (he : PowerPacker.LegalEff eff)
+    (hne : p ≠ []) (hlen : p.length < 2 ^ 24)
+    (hsz : minHeaderSize ≤ (PowerPacker.ppEncode eff p).length) :
+    loadByPath env loader (PowerPacker.ppEncode eff p) = some (loadFromMemory loader p) ∧
+    (loadByPath env loader (PowerPacker.ppEncode eff p)).map (·.2) = some (md5 p) :=
+  pipeline_ppPack env loader eff _ _ p hne hsz (C08_pp_roundtrip eff p he hne hlen)
+
+/-- **pipeline, PowerPacker, any token stream (literal runs + matches): complete, no decoder hypothesis** -/
+theorem C08_pipeline_pp_tokens {β : Type} (env : Env) (loader : Bytes → β) (eff : Bytes)
+    (items : List PowerPacker.PPItem) (he : PowerPacker.LegalEff eff) (hne : items ≠ [])
+    (hok : PowerPacker.ItemsOk eff (PowerPacker.ppExpand items).length 0 items)
+    (hlen : (PowerPacker.ppExpand items).length < 2 ^ 24)
+    (hsz : minHeaderSize ≤ (PowerPacker.ppRender eff items).length) :
+    loadByPath env loader (PowerPacker.ppRender eff items) = some (loadFromMemory loader (PowerPacker.ppExpand items)) ∧
+    (loadByPath env loader (PowerPacker.ppRender eff items)).map (·.2) = some (md5 (PowerPacker.ppExpand items)) := by
+  have hpos : PowerPacker.ppExpand items ≠ [] := by
+    have h1 := PowerPacker.itemsOk_length eff _ items 0 hok
+    have h2 : 0 < items.length := List.length_pos_iff.mpr hne
+    intro h; rw [h] at h1; simp only [List.length_nil, Nat.zero_add] at h1; omega
+  exact pipeline_ppPack env loader eff _ _ _ hpos hsz (C08_pp_tokens eff items he hne hok hlen)
+
+/-! ## ARC / Spark: RLE90 encoder, byte-level framing, pipeline -/
+
+/-- the concrete RLE90 encoder emits well-formed tokens that mean the payload, so the decoder inverts it -/
+theorem C08_rle90_encoder (p : Bytes) :
+    (∀ t ∈ rle90Enc p, t.Ok) ∧ expand (rle90Enc p) = p ∧ unrle90 p.length (render (rle90Enc p)) = some p :=
+  ⟨rle90Enc_ok p, rle90Enc_expand p, unrle90_rle90Enc p⟩
+
+/-- **ARC / Spark framing** (`arc_read` on bytes): header walk over any number of excluded members, member
+    selection, stored (1, 2) and RLE90 (3) methods with plain or Spark headers, CRC-16 gate: the data of the first
+    non-excluded member comes back, for every check function `crc` and whatever follows the member. -/
+theorem C08_arc_framing (crc : Bytes → UInt16) (dec : Nat → Bytes → Nat → Option Bytes) (pre post : List ArcMember)
+    (m : ArcMember) (spark : Bool)
+    (hpre : ∀ x ∈ pre, x.Legal ∧ excludeMatch x.name = true)
+    (hm : m.Legal) (hx : excludeMatch m.name = false) (hlim : m.data.length ≤ depackLimit) :
+    arcRead crc dec (arcWrap crc (pre ++ m :: post) spark) = some m.data :=
+  arcRead_wrap crc dec pre post m spark hpre hm hx hlim
+
+theorem arc_mem : ("arc", "arc.c", Magic.arcTest) ∈ depackerList := by simp [depackerList]
+
+/-- **pipeline, ARC/Spark stored + RLE90 (complete: header walk, member selection, RLE90 codec, CRC gate)**.
+    `m0` is the first member of the archive (its name is what the signature tests see). -/
+theorem C08_pipeline_arc {β : Type} (env : Env) (loader : Bytes → β) (pre post : List ArcMember)
+    (m m0 : ArcMember) (rest : List ArcMember) (spark : Bool)
+    (hpre : ∀ x ∈ pre, x.Legal ∧ excludeMatch x.name = true)
+    (hm : m.Legal) (hx : excludeMatch m.name = false) (hlim : m.data.length ≤ depackLimit) (hne : m.data ≠ [])
+    (h0 : pre ++ m :: post = m0 :: rest) (hm0 : m0.Legal) (hp0 : printable m0.name)
+    (hdash : m0.name.getD 0 0 ≠ 0x2d) :
+    loadByPath env loader (arcWrap env.crc16 (pre ++ m :: post) spark) = some (loadFromMemory loader m.data) ∧
+    (loadByPath env loader (arcWrap env.crc16 (pre ++ m :: post) spark)).map (·.2) = some (md5 m.data) := by
+  apply C08_pipeline_of_decrunch
+  have hd := C08_dispatch_of_test _ arc_mem (by decide) (arcWrap env.crc16 (m0 :: rest) spark)
+    (arcWrap_length env.crc16 m0 rest spark hm0)
+    (by simpa [evalMagic] using arcTest_wrap env.crc16 m0 rest spark hm0 hp0)
+    (lha_test_byte2 _ (arc_byte2 env.crc16 m0 rest spark hdash))
+  unfold decrunch
+  rw [h0, hd]
+  simp only []
+  rw [← h0, C08_arc_framing env.crc16 env.arcDec pre post m spark hpre hm hx hlim]
+  have : m.data.length ≠ 0 := fun h => hne (List.eq_nil_of_length_eq_zero h)
+  simp [reopenMem, this]
+
+/-- non-trivial instance: an excluded stored `README` first, then an RLE90-packed Spark member -/
+def exReadme : ArcMember := { name := [0x52, 0x45, 0x41, 0x44, 0x4d, 0x45], method := 130, data := [1, 2, 3] }
+def exMod : ArcMember :=
+  { name := [0x41, 0x2e, 0x58, 0x4d], method := 131, data := [7, 7, 7, 7, 0x90, 8],
+    toks := [.lit 7, .rep 4, .lit90, .lit 8] }
+
+theorem exReadme_legal : exReadme.Legal :=
+  ⟨by decide, by unfold noNul exReadme; decide, by decide, by decide, by decide, by decide, by decide, by decide,
+   by decide, fun h => absurd h (by decide), by decide⟩
+theorem exMod_legal : exMod.Legal :=
+  ⟨by decide, by unfold noNul exMod; decide, by decide, by decide, by decide, by decide, by decide, by decide,
+   by decide,
+   fun _ => ⟨by intro t ht; simp [exMod] at ht; rcases ht with h | h | h | h <;> subst h <;> simp [Tok.Ok],
+     by decide⟩,
+   by decide⟩
+
+example : arcRead crc16 (fun _ _ _ => none) (arcWrap crc16 ([exReadme] ++ exMod :: [exReadme]) true) =
+    some [7, 7, 7, 7, 0x90, 8] :=
+  C08_arc_framing crc16 _ [exReadme] [exReadme] exMod true
+    (by intro x hx; simp at hx; subst hx; exact ⟨exReadme_legal, by decide⟩) exMod_legal (by decide) (by decide)
+
+/-- the same with the concrete encoder for method 3 -/
+theorem C08_pipeline_arc_rle90 {β : Type} (env : Env) (loader : Bytes → β) (name : Bytes) (p : Bytes) (spark : Bool)
+    (hl : name.length ≤ 12) (hn : noNul name) (hpn : printable name) (hdash : name.getD 0 0 ≠ 0x2d)
+    (hx : excludeMatch name = false) (hne : p ≠ []) (hlim : p.length ≤ depackLimit)
+    (hc : (render (rle90Enc p)).length < 2 ^ 32) :
+    loadByPath env loader (arcWrap env.crc16
+      [{ name := name, method := if spark then 131 else 3, data := p, toks := rle90Enc p }] spark) =
+      some (loadFromMemory loader p) := by
+  have hlim' : p.length < 2 ^ 32 := by unfold depackLimit at hlim; omega
+  have hmeth : (if spark then 131 else 3 : Nat) % 128 = 3 := by cases spark <;> rfl
+  have hm : ({ name := name, method := if spark then 131 else 3, data := p, toks := rle90Enc p } : ArcMember).Legal := by
+    refine ⟨hl, hn, Or.inr (Or.inr hmeth), by cases spark <;> simp, hlim', ?_, by simp, by simp, by simp, ?_, ?_⟩
+    · simpa [ArcMember.cdata, arcPacked, hmeth] using hc
+    · intro _; exact ⟨rle90Enc_ok p, rle90Enc_expand p⟩
+    · intro h; cases spark <;> simp at h
+  exact (C08_pipeline_arc env loader [] [] _ _ [] spark (by simp) hm hx hlim hne rfl hm hpn hdash).1
+
+
+/-! ## zip: byte-level framing (central directory walk, local headers), pipeline -/
+
+/-- **the central-directory walk finds exactly the written members** (names, flags, methods, sizes, CRC, data
+    slices), for any lead-in bytes, extra fields and per-file comments -/
+theorem C08_zip_members (crc : Bytes → UInt32) (lead : Bytes) (ms : List ZipMember)
+    (hl : ∀ m ∈ ms, m.Legal) (hofs : OfsOk crc lead.length ms) (hn : ms.length < 65536)
+    (hcd : (lead ++ zipLocals crc ms).length < 2 ^ 32) :
+    zipMembers (zipWrap crc lead ms) = some (ms.map (memSpec crc)) :=
+  zipMembers_wrap crc lead ms hl hofs hn hcd
+
+/-- **zip framing**: skipped members (directories, unsupported methods/flags, excluded names) in front, then the module:
+    stored members unconditionally, deflated members given a correct inflate of that member's stream -/
+theorem C08_zip_framing (crc : Bytes → UInt32) (dec : Nat → Bytes → Option Bytes) (lead : Bytes)
+    (pre post : List ZipMember) (m : ZipMember)
+    (hl : ∀ x ∈ pre ++ m :: post, x.Legal) (hofs : OfsOk crc lead.length (pre ++ m :: post))
+    (hn : (pre ++ m :: post).length < 65536) (hcd : (lead ++ zipLocals crc (pre ++ m :: post)).length < 2 ^ 32)
+    (hpre : ∀ x ∈ pre, Skipped (memSpec crc x)) (hm : ¬ Skipped (memSpec crc m))
+    (hdec : (if m.method = 0 then some m.cdata else dec m.method m.cdata) = some m.data) :
+    unzip (fun b => (crc b).toNat) dec (zipWrap crc lead (pre ++ m :: post)) = some m.data :=
+  unzip_wrap crc dec lead pre post m hl hofs hn hcd hpre hm hdec
+
+/-- non-trivial instance: an excluded README, a directory entry, then a stored module with an extra field and a
+    per-file comment, then another file -/
+def exZipPre : List ZipMember := [
+  { name := [0x52, 0x45, 0x41, 0x44, 0x4d, 0x45], data := [1, 2, 3], cdata := [1, 2, 3] },
+  { name := [0x64, 0x2f], data := [], cdata := [], extAttr := 16 }]
+def exZipMod : ZipMember :=
+  { name := [0x61, 0x2e, 0x78, 0x6d], data := [9, 8, 7, 6], cdata := [9, 8, 7, 6], extra := [1, 0, 2, 0, 5, 5],
+    comment := [65] }
+def exZipPost : List ZipMember := [{ name := [0x62], data := [4], cdata := [4] }]
+
+example : unzip (fun b => (crc32 b).toNat) (fun _ _ => none)
+    (zipWrap crc32 [80, 75, 48, 48] (exZipPre ++ exZipMod :: exZipPost)) = some [9, 8, 7, 6] := by
+  have hl : ∀ x ∈ exZipPre ++ exZipMod :: exZipPost, x.Legal := by
+    intro x hx
+    simp only [exZipPre, exZipPost, List.cons_append, List.nil_append, List.mem_cons, List.not_mem_nil, or_false] at hx
+    rcases hx with h | h | h | h <;> subst h <;>
+      exact ⟨by decide, by decide, by decide, by decide, by decide, by decide, by decide, by decide, by decide⟩
+  exact C08_zip_framing crc32 _ [80, 75, 48, 48] exZipPre exZipPost exZipMod hl
+    (by simp [exZipPre, exZipPost, exZipMod, OfsOk, zipLocal_length])
+    (by decide) (by simp [exZipPre, exZipPost, exZipMod, zipLocals, zipLocal_length])
+    (by intro x hx
+        simp only [exZipPre, List.mem_cons, List.not_mem_nil, or_false] at hx
+        rcases hx with h | h <;> subst h <;> unfold Skipped <;> decide)
+    (by unfold Skipped; decide) rfl
+
+/-- **the end-of-central-directory search of miniz (4096-byte windows from the end, 3-byte overlap, give-up after
+    65535 + 22 bytes; as fixed in /repo 956fc91) finds the last record** that starts within reach — in particular
+    behind every legal archive comment -/
+theorem C08_zip_eocd_scan (f : Bytes) (e : Nat) (h : LastSig f e) (hfar : f.length - e ≤ 65535 + 22) :
+    locateEocd f = some e := locateEocd_spec f e h hfar
+
+/-- **zip framing with an archive comment** (any comment up to 65535 bytes that does not itself contain a
+    signature with 22 bytes behind it) -/
+theorem C08_zip_framing_comment (crc : Bytes → UInt32) (dec : Nat → Bytes → Option Bytes) (lead : Bytes)
+    (pre post : List ZipMember) (m : ZipMember) (comment : Bytes)
+    (hl : ∀ x ∈ pre ++ m :: post, x.Legal) (hofs : OfsOk crc lead.length (pre ++ m :: post))
+    (hn : (pre ++ m :: post).length < 65536) (hcd : (lead ++ zipLocals crc (pre ++ m :: post)).length < 2 ^ 32)
+    (hc : CommentOk (zipEocd (pre ++ m :: post).length (zipCd crc lead.length (pre ++ m :: post)).length
+      (lead ++ zipLocals crc (pre ++ m :: post)).length comment.length) comment)
+    (hpre : ∀ x ∈ pre, Skipped (memSpec crc x)) (hm : ¬ Skipped (memSpec crc m))
+    (hdec : (if m.method = 0 then some m.cdata else dec m.method m.cdata) = some m.data) :
+    unzip (fun b => (crc b).toNat) dec (zipWrapC crc lead (pre ++ m :: post) comment) = some m.data :=
+  unzip_wrapC crc dec lead pre post m comment hl hofs hn hcd hc hpre hm hdec
+
+theorem dispatch_zip (crc : Bytes → UInt32) (m0 : ZipMember) (ms : List ZipMember) :
+    dispatch (zipWrap crc [] (m0 :: ms)) = some "zip" := by
+  obtain ⟨t, ht⟩ := zipWrap_head crc m0 ms
+  have hlen := zipWrap_length crc [] (m0 :: ms)
+  have hb : ∀ i, i < 4 → bAt (sniff (zipWrap crc [] (m0 :: ms))) i = bAt (zipWrap crc [] (m0 :: ms)) i :=
+    fun i hi => bAt_sniff _ i (by simp [sniffSize]; omega)
+  have h0 : bAt (sniff (zipWrap crc [] (m0 :: ms))) 0 = 80 := by rw [hb 0 (by decide), ht]; rfl
+  have h1 : bAt (sniff (zipWrap crc [] (m0 :: ms))) 1 = 75 := by rw [hb 1 (by decide), ht]; rfl
+  have h2 : bAt (sniff (zipWrap crc [] (m0 :: ms))) 2 = 3 := by rw [hb 2 (by decide), ht]; rfl
+  have h3 : bAt (sniff (zipWrap crc [] (m0 :: ms))) 3 = 4 := by rw [hb 3 (by decide), ht]; rfl
+  have hs : ¬ (sniff (zipWrap crc [] (m0 :: ms))).length < minHeaderSize := by
+    have hm : minHeaderSize ≤ sniffSize := by decide
+    have : minHeaderSize = 22 := rfl
+    unfold sniff; simp only [List.length_take]; omega
+  unfold dispatch
+  simp only [hs, if_false]
+  simp [depackerList, List.find?, evalMagic, h0, h1, h2, h3]
+
+/-- **pipeline, zip (complete framing; stored members need no hypothesis, deflated ones only a correct inflate)** -/
+theorem C08_pipeline_zip {β : Type} (env : Env) (loader : Bytes → β) (pre post : List ZipMember) (m m0 : ZipMember)
+    (rest : List ZipMember) (h0 : pre ++ m :: post = m0 :: rest)
+    (hl : ∀ x ∈ pre ++ m :: post, x.Legal) (hofs : OfsOk env.crc32 0 (pre ++ m :: post))
+    (hn : (pre ++ m :: post).length < 65536) (hcd : (zipLocals env.crc32 (pre ++ m :: post)).length < 2 ^ 32)
+    (hpre : ∀ x ∈ pre, Skipped (memSpec env.crc32 x)) (hm : ¬ Skipped (memSpec env.crc32 m))
+    (hdec : (if m.method = 0 then some m.cdata else if m.method = 8 then env.inflate m.cdata else none) = some m.data)
+    (hne : m.data ≠ []) :
+    loadByPath env loader (zipWrap env.crc32 [] (pre ++ m :: post)) = some (loadFromMemory loader m.data) ∧
+    (loadByPath env loader (zipWrap env.crc32 [] (pre ++ m :: post))).map (·.2) = some (md5 m.data) := by
+  apply C08_pipeline_of_decrunch
+  unfold decrunch
+  rw [h0, dispatch_zip env.crc32 m0 rest, ← h0]
+  simp only []
+  rw [C08_zip_framing env.crc32 _ [] pre post m hl (by simpa using hofs) hn (by simpa using hcd) hpre hm hdec]
+  have : m.data.length ≠ 0 := fun h => hne (List.eq_nil_of_length_eq_zero h)
+  simp [reopenMem, this]
+
+
+/-! ## LHA: byte-level framing of stored members (header levels 0, 1, 2), pipeline -/
+
+/-- **LHA framing**: on an archive written member by member (`-lh0-`, any mix of level 0 / 1 / 2 headers and OS
+    ids), the lhasa reader model finds the archive start, reads every header (length and checksum tests, name
+    fields, level-1/2 extended header walk, MS-DOS all-caps fix), skips the members whose *seen* name is excluded and
+    returns the data of the first other member through the stored decoder, whatever follows it. -/
+theorem C08_lha_framing (crc : Bytes → UInt16) (dec : Bytes → Bool → Bytes → Nat → Option Bytes)
+    (pre post : List LhaMember) (m m0 : LhaMember) (rest0 : List LhaMember)
+    (h0 : pre ++ m :: post = m0 :: rest0) (hm0 : m0.Legal)
+    (hpre : ∀ x ∈ pre, x.Legal ∧ excludeMatch (lhaSeenName x) = true)
+    (hm : m.Legal) (hx : excludeMatch (lhaSeenName m) = false) (hne : m.data ≠ [])
+    (hlim : m.data.length ≤ depackLimit) :
+    unlha dec (lhaWrap crc (pre ++ m :: post)) = some m.data :=
+  unlha_wrap crc dec pre post m m0 rest0 h0 hm0 hpre hm hx hne hlim
+
+/-- non-trivial instance: an all-caps `README` with a level-1 MS-DOS header (seen as `readme`, excluded), then a
+    module with a level-2 header -/
+def exLhaPre : LhaMember := { name := [0x52, 0x45, 0x41, 0x44, 0x4d, 0x45], data := [1, 2], level := 1, osId := 0x4d }
+def exLhaMod : LhaMember := { name := [0x61, 0x2e, 0x78, 0x6d], data := [9, 8, 7], level := 2 }
+
+theorem exLha_legal : exLhaPre.Legal ∧ exLhaMod.Legal := by
+  constructor
+  · exact ⟨by decide, ⟨by decide, by unfold noNul exLhaPre; decide, by decide, by decide, by decide⟩, by decide,
+      by decide, by decide⟩
+  · exact ⟨by decide, ⟨by decide, by unfold noNul exLhaMod; decide, by decide, by decide, by decide⟩, by decide,
+      by decide, by decide⟩
+
+example : unlha (fun _ _ _ _ => none) (lhaWrap crc16 ([exLhaPre] ++ exLhaMod :: [exLhaPre])) = some [9, 8, 7] :=
+  C08_lha_framing crc16 _ [exLhaPre] [exLhaPre] exLhaMod exLhaPre [exLhaMod, exLhaPre] rfl exLha_legal.1
+    (by intro x hx; simp at hx; subst hx; exact ⟨exLha_legal.1, by decide⟩) exLha_legal.2 (by decide) (by decide)
+    (by decide)
+
+theorem dispatch_lha (crc : Bytes → UInt16) (m0 : LhaMember) (rest : List LhaMember) (hm : m0.Legal) :
+    dispatch (lhaWrap crc (m0 :: rest)) = some "lha" := by
+  have hlen := lhaWrap_length crc m0 rest hm
+  have hb : ∀ i, i < 21 → bAt (sniff (lhaWrap crc (m0 :: rest))) i = bAt (lhaWrap crc (m0 :: rest)) i :=
+    fun i hi => bAt_sniff _ i (by simp [sniffSize]; omega)
+  have hfile : lhaWrap crc (m0 :: rest) = lhaEntry crc m0 ++ (rest.flatMap (lhaEntry crc) ++ [0]) := by
+    simp [lhaWrap, List.append_assoc]
+  obtain ⟨hmatch, _⟩ := lhaEntry_match crc m0 hm (rest.flatMap (lhaEntry crc) ++ [0])
+  rw [← hfile] at hmatch
+  have h20 := lhaEntry_level_byte crc m0 hm (rest.flatMap (lhaEntry crc) ++ [0])
+  rw [← hfile] at h20
+  simp only [lhaHdrMatch, Nat.zero_add, Bool.and_eq_true, Bool.or_eq_true, beq_iff_eq] at hmatch
+  obtain ⟨⟨h2, h6⟩, hrest⟩ := hmatch
+  have h34 : bAt (lhaWrap crc (m0 :: rest)) 3 = 0x6c ∧ bAt (lhaWrap crc (m0 :: rest)) 4 = 0x68 := by
+    have hm' := lhaEntry_match crc m0 hm (rest.flatMap (lhaEntry crc) ++ [0])
+    have := hm.lvl
+    rcases (by omega : m0.level = 0 ∨ m0.level = 1 ∨ m0.level = 2) with h | h | h
+    · rw [hfile]; constructor <;> simp [bAt, lhaEntry, h, lhaLh0]
+    · rw [hfile]; constructor <;> simp [bAt, lhaEntry, h, lhaLh0]
+    · have hn : ¬ m0.level = 0 ∧ ¬ m0.level = 1 := by omega
+      rw [hfile]; constructor <;> simp [bAt, lhaEntry, hn.1, hn.2, lhaLh0, le16]
+  have hs : ¬ (sniff (lhaWrap crc (m0 :: rest))).length < minHeaderSize := by
+    have hm' : minHeaderSize ≤ sniffSize := by decide
+    have : minHeaderSize = 22 := rfl
+    unfold sniff; simp only [List.length_take]; omega
+  have hl3 : m0.level ≤ 3 := by have := hm.lvl; omega
+  unfold dispatch
+  simp only [hs, if_false]
+  simp [depackerList, evalMagic, hb, h2, h6, h34.1, h34.2, h20, hl3]
+
+/-- **pipeline, LHA stored members (complete framing; `-lh0-` needs no decoder hypothesis)** -/
+theorem C08_pipeline_lha {β : Type} (env : Env) (lhaDec : Bytes → Bool → Bytes → Nat → Option Bytes)
+    (loader : Bytes → β) (pre post : List LhaMember) (m m0 : LhaMember) (rest0 : List LhaMember)
+    (h0 : pre ++ m :: post = m0 :: rest0) (hm0 : m0.Legal)
+    (hpre : ∀ x ∈ pre, x.Legal ∧ excludeMatch (lhaSeenName x) = true)
+    (hm : m.Legal) (hx : excludeMatch (lhaSeenName m) = false) (hne : m.data ≠ [])
+    (hlim : m.data.length ≤ depackLimit) :
+    loadByPath (env.withLha lhaDec) loader (lhaWrap env.crc16 (pre ++ m :: post)) = some (loadFromMemory loader m.data) ∧
+    (loadByPath (env.withLha lhaDec) loader (lhaWrap env.crc16 (pre ++ m :: post))).map (·.2) = some (md5 m.data) := by
+  apply C08_pipeline_of_decrunch
+  unfold decrunch
+  rw [h0, dispatch_lha env.crc16 m0 rest0 hm0, ← h0]
+  simp only [Env.withLha, if_true]
+  rw [C08_lha_framing env.crc16 lhaDec pre post m m0 rest0 h0 hm0 hpre hm hx hne hlim]
+  have : m.data.length ≠ 0 := fun h => hne (List.eq_nil_of_length_eq_zero h)
+  simp [reopenMem, this]
+
+
+/-! ## ArcFS: byte-level framing, pipeline -/
+
+/-- **ArcFS framing** (`arcfs_read` on bytes): 96-byte header checks, 36-byte entry table walk over any number of
+    excluded members, value offsets into the data area, stored + RLE90 methods, CRC-16 gate, trailing
+    end-of-directory entries -/
+theorem C08_arcfs_framing (crc : Bytes → UInt16) (dec : Nat → Nat → Bytes → Nat → Option Bytes)
+    (pre post : List ArcfsMember) (m : ArcfsMember) (pad : Nat)
+    (hl : ∀ x ∈ pre ++ m :: post, x.Legal) (hvo : VoOk 0 (pre ++ m :: post))
+    (hcount : 36 * ((pre ++ m :: post).length + pad) + 96 < 2 ^ 32)
+    (hpre : ∀ x ∈ pre, excludeMatch x.name = true) (hx : excludeMatch m.name = false)
+    (hlim : m.data.length ≤ depackLimit) (hc0 : 0 < m.cdata.length) :
+    arcfsRead crc dec (arcfsWrap crc (pre ++ m :: post) pad) = some m.data :=
+  arcfsRead_wrap crc dec pre post m pad hl hvo hcount hpre hx hlim hc0
+
+theorem arcfs_mem : ("arcfs", "arcfs.c", Magic.memEq 0 [65, 114, 99, 104, 105, 118, 101, 0]) ∈ depackerList := by
+  simp [depackerList]
+
+/-- **pipeline, ArcFS stored + RLE90 (complete: header, entry walk, RLE90 codec, CRC gate)** -/
+theorem C08_pipeline_arcfs {β : Type} (env : Env) (dec : Nat → Nat → Bytes → Nat → Option Bytes)
+    (loader : Bytes → β) (pre post : List ArcfsMember) (m : ArcfsMember) (pad : Nat)
+    (hl : ∀ x ∈ pre ++ m :: post, x.Legal) (hvo : VoOk 0 (pre ++ m :: post))
+    (hcount : 36 * ((pre ++ m :: post).length + pad) + 96 < 2 ^ 32)
+    (hpre : ∀ x ∈ pre, excludeMatch x.name = true) (hx : excludeMatch m.name = false)
+    (hlim : m.data.length ≤ depackLimit) (hc0 : 0 < m.cdata.length) (hne : m.data ≠ []) :
+    loadByPath (env.withArcfs dec) loader (arcfsWrap env.crc16 (pre ++ m :: post) pad) =
+      some (loadFromMemory loader m.data) ∧
+    (loadByPath (env.withArcfs dec) loader (arcfsWrap env.crc16 (pre ++ m :: post) pad)).map (·.2) = some (md5 m.data) := by
+  apply C08_pipeline_of_decrunch
+  generalize hF : arcfsWrap env.crc16 (pre ++ m :: post) pad = F
+  have hhead : ∃ t, F = 0x41 :: 0x72 :: 0x63 :: 0x68 :: 0x69 :: 0x76 :: 0x65 :: 0 :: t ∧ 88 ≤ t.length := by
+    rw [← hF]; unfold arcfsWrap
+    refine ⟨_, by simp only [List.cons_append, List.nil_append, List.append_assoc]; rfl, ?_⟩
+    simp only [List.length_append, le32_length, List.length_replicate]; omega
+  obtain ⟨t, ht, htl⟩ := hhead
+  have hs : minHeaderSize ≤ (sniff F).length := by
+    have hm : minHeaderSize ≤ sniffSize := by decide
+    have : minHeaderSize = 22 := rfl
+    rw [ht]; unfold sniff; simp only [List.length_take, List.length_cons]; omega
+  have hb : ∀ i, i < 8 → bAt (sniff F) i = bAt F i := fun i hi => bAt_sniff _ i (by simp [sniffSize]; omega)
+  have hv : ∀ i v, i < 8 → bAt F i = v → bAt (sniff F) i = v := fun i v hi h => by rw [hb i hi]; exact h
+  have h0 := hv 0 65 (by decide) (by rw [ht]; rfl)
+  have h1 := hv 1 114 (by decide) (by rw [ht]; rfl)
+  have h2 := hv 2 99 (by decide) (by rw [ht]; rfl)
+  have h3 := hv 3 104 (by decide) (by rw [ht]; rfl)
+  have h4 := hv 4 105 (by decide) (by rw [ht]; rfl)
+  have h5 := hv 5 118 (by decide) (by rw [ht]; rfl)
+  have h6 := hv 6 101 (by decide) (by rw [ht]; rfl)
+  have h7 := hv 7 0 (by decide) (by rw [ht]; rfl)
+  have hd := C08_dispatch_of_test _ arcfs_mem (by decide) F hs
+    (by simp [evalMagic, memEqAt, h0, h1, h2, h3, h4, h5, h6, h7])
+    (lha_test_byte2 _ (by rw [h2]; decide))
+  unfold decrunch
+  rw [hd]
+  simp only [Env.withArcfs, if_true]
+  rw [← hF, C08_arcfs_framing env.crc16 dec pre post m pad hl hvo hcount hpre hx hlim hc0]
+  have : m.data.length ≠ 0 := fun h => hne (List.eq_nil_of_length_eq_zero h)
+  simp [reopenMem, this]
+
+
+/-! ## LZX: byte-level framing of stored members, pipeline -/
+
+/-- **LZX framing** (`lzx_read` on bytes): archive header, entry headers with file names and comments, header CRC-32
+    (chained over header, name and comment with its own field zeroed), the merge state machine on unmerged
+    entries, excluded members skipped, stored extraction, CRC-32 gate — for every chainable check function `crc` -/
+theorem C08_lzx_framing (crc : UInt32 → Bytes → UInt32) (dec : Bytes → Nat → Option Bytes) (pre post : List LzxMember)
+    (m : LzxMember)
+    (hpre : ∀ x ∈ pre, x.Legal ∧ excludeMatch x.name = true)
+    (hm : m.Legal) (hx : excludeMatch m.name = false) (hlim : m.data.length ≤ depackLimit) (hne : m.data ≠ []) :
+    lzxRead crc dec (lzxWrap crc (pre ++ m :: post)) = some m.data :=
+  lzxRead_wrap crc dec pre post m hpre hm hx hlim hne
+
+theorem lzx_mem : ("lzx", "lzx.c", Magic.memEq 0 [76, 90, 88]) ∈ depackerList := by simp [depackerList]
+
+/-- **pipeline, LZX stored members (complete framing, no decoder hypothesis)** -/
+theorem C08_pipeline_lzx {β : Type} (env : Env) (crcA : UInt32 → Bytes → UInt32) (dec : Bytes → Nat → Option Bytes)
+    (loader : Bytes → β) (pre post : List LzxMember) (m : LzxMember)
+    (hpre : ∀ x ∈ pre, x.Legal ∧ excludeMatch x.name = true)
+    (hm : m.Legal) (hx : excludeMatch m.name = false) (hlim : m.data.length ≤ depackLimit) (hne : m.data ≠ []) :
+    loadByPath (env.withLzx crcA dec) loader (lzxWrap crcA (pre ++ m :: post)) = some (loadFromMemory loader m.data) ∧
+    (loadByPath (env.withLzx crcA dec) loader (lzxWrap crcA (pre ++ m :: post))).map (·.2) = some (md5 m.data) := by
+  apply C08_pipeline_of_decrunch
+  generalize hF : lzxWrap crcA (pre ++ m :: post) = F
+  have hhead : ∃ t, F = 0x4c :: 0x5a :: 0x58 :: t ∧ 38 ≤ t.length := by
+    rw [← hF]; unfold lzxWrap
+    have h1 : 31 ≤ ((pre ++ m :: post).flatMap (lzxEntry crcA)).length := by
+      rw [List.flatMap_append, List.flatMap_cons]
+      have := lzxEntry_pos crcA m
+      simp only [List.length_append]; omega
+    refine ⟨([0, 0x0c, 0, 0x0a, 0x04, 0, 0] : Bytes) ++ (pre ++ m :: post).flatMap (lzxEntry crcA), rfl, ?_⟩
+    rw [List.length_append]
+    have : ([0, 0x0c, 0, 0x0a, 0x04, 0, 0] : Bytes).length = 7 := rfl
+    omega
+  obtain ⟨t, ht, htl⟩ := hhead
+  have hs : minHeaderSize ≤ (sniff F).length := by
+    have hm' : minHeaderSize ≤ sniffSize := by decide
+    have : minHeaderSize = 22 := rfl
+    rw [ht]; unfold sniff; simp only [List.length_take, List.length_cons]; omega
+  have hv : ∀ i v, i < 3 → bAt F i = v → bAt (sniff F) i = v := fun i v hi h => by
+    rw [bAt_sniff _ i (by simp [sniffSize]; omega)]; exact h
+  have h0 := hv 0 76 (by decide) (by rw [ht]; rfl)
+  have h1 := hv 1 90 (by decide) (by rw [ht]; rfl)
+  have h2 := hv 2 88 (by decide) (by rw [ht]; rfl)
+  have hd := C08_dispatch_of_test _ lzx_mem (by decide) F hs
+    (by simp [evalMagic, memEqAt, h0, h1, h2]) (lha_test_byte2 _ (by rw [h2]; decide))
+  unfold decrunch
+  rw [hd]
+  simp only [Env.withLzx, if_true]
+  rw [← hF, C08_lzx_framing crcA dec pre post m hpre hm hx hlim hne]
+  have : m.data.length ≠ 0 := fun h => hne (List.eq_nil_of_length_eq_zero h)
+  simp [reopenMem, this]
+
+
+/-! ## MMCMP: byte-level framing of stored blocks, pipeline -/
+
+/-- **MMCMP framing, stored blocks** (`decrunch_mmcmp` on bytes): header tests, block offset table, block headers,
+    sub-block tables, and `block_copy` of every sub-block to its position in the zero-filled output buffer — for
+    every split of the payload into blocks and sub-blocks -/
+theorem C08_mmcmp_framing (dec : Nat → Nat → Nat → List (Nat × Nat) → Bytes → Bytes → Option Bytes)
+    (blocks : List (List Bytes)) (hne : blocks ≠ []) (hcount : blocks.length < 65536)
+    (hok : BlocksOk 0 blocks)
+    (h16 : 16 ≤ ((blocks.map List.flatten).flatten).length)
+    (hlim : ((blocks.map List.flatten).flatten).length ≤ depackLimit)
+    (hsz : 24 + (mmBody 0 blocks).length < 2 ^ 32) :
+    decrunchMmcmp dec (mmcmpWrap blocks) = some ((blocks.map List.flatten).flatten) :=
+  decrunchMmcmp_wrap dec blocks hne hcount hok h16 hlim hsz
+
+theorem mmcmp_mem : ("mmcmp", "mmcmp.c", Magic.memEq 0 [122, 105, 82, 67, 79, 78, 105, 97]) ∈ depackerList := by
+  simp [depackerList]
+
+/-- **pipeline, MMCMP stored blocks (complete framing, no decoder hypothesis)** -/
+theorem C08_pipeline_mmcmp {β : Type} (env : Env)
+    (dec : Nat → Nat → Nat → List (Nat × Nat) → Bytes → Bytes → Option Bytes) (loader : Bytes → β)
+    (blocks : List (List Bytes)) (hne : blocks ≠ []) (hcount : blocks.length < 65536)
+    (hok : BlocksOk 0 blocks)
+    (h16 : 16 ≤ ((blocks.map List.flatten).flatten).length)
+    (hlim : ((blocks.map List.flatten).flatten).length ≤ depackLimit)
+    (hsz : 24 + (mmBody 0 blocks).length < 2 ^ 32) :
+    loadByPath (env.withMmcmp dec) loader (mmcmpWrap blocks) =
+      some (loadFromMemory loader ((blocks.map List.flatten).flatten)) ∧
+    (loadByPath (env.withMmcmp dec) loader (mmcmpWrap blocks)).map (·.2) = some (md5 ((blocks.map List.flatten).flatten)) := by
+  apply C08_pipeline_of_decrunch
+  generalize hF : mmcmpWrap blocks = F
+  have hhead : ∃ t, F = 0x7a :: 0x69 :: 0x52 :: 0x43 :: 0x4f :: 0x4e :: 0x69 :: 0x61 :: t ∧ 16 ≤ t.length := by
+    rw [← hF]; unfold mmcmpWrap
+    refine ⟨_, by simp only [List.cons_append, List.nil_append, List.append_assoc]; rfl, ?_⟩
+    simp only [List.length_append, le16_length, le32_length, List.length_cons, List.length_nil]; omega
+  obtain ⟨t, ht, htl⟩ := hhead
+  have hs : minHeaderSize ≤ (sniff F).length := by
+    have hm' : minHeaderSize ≤ sniffSize := by decide
+    have : minHeaderSize = 22 := rfl
+    rw [ht]; unfold sniff; simp only [List.length_take, List.length_cons]; omega
+  have hv : ∀ i v, i < 8 → bAt F i = v → bAt (sniff F) i = v := fun i v hi h => by
+    rw [bAt_sniff _ i (by simp [sniffSize]; omega)]; exact h
+  have h0 := hv 0 122 (by decide) (by rw [ht]; rfl)
+  have h1 := hv 1 105 (by decide) (by rw [ht]; rfl)
+  have h2 := hv 2 82 (by decide) (by rw [ht]; rfl)
+  have h3 := hv 3 67 (by decide) (by rw [ht]; rfl)
+  have h4 := hv 4 79 (by decide) (by rw [ht]; rfl)
+  have h5 := hv 5 78 (by decide) (by rw [ht]; rfl)
+  have h6 := hv 6 105 (by decide) (by rw [ht]; rfl)
+  have h7 := hv 7 97 (by decide) (by rw [ht]; rfl)
+  have hd := C08_dispatch_of_test _ mmcmp_mem (by decide) F hs
+    (by simp [evalMagic, memEqAt, h0, h1, h2, h3, h4, h5, h6, h7]) (lha_test_byte2 _ (by rw [h2]; decide))
+  unfold decrunch
+  rw [hd]
+  simp only [Env.withMmcmp, if_true]
+  rw [← hF, C08_mmcmp_framing dec blocks hne hcount hok h16 hlim hsz]
+  generalize (blocks.map List.flatten).flatten = P at *
+  have : P.length ≠ 0 := by omega
+  simp [reopenMem, this]
 
 end Xmp.Container
